@@ -432,7 +432,12 @@ func (u *Univ) Decls() string {
 	for _, s := range ms {
 		m, um := u.MarshalFn(s)
 		fmt.Fprintf(&b, "(declare-fun %s (%s) (Slice Int))\n(declare-fun %s ((Slice Int)) %s)\n", m, s, um, s)
-		fmt.Fprintf(&b, "(assert (forall ((x %s)) (! (and (= (%s (%s x)) x) (not (sl.nil (%s x)))) :pattern ((%s x)))))\n", s, um, m, m, m)
+		guard := "true"
+		if info := u.structs[s]; info != nil && info.Named != nil {
+			guard = u.WellTyped(info.Named, "x", 0)
+		}
+		// the round trip holds for well-typed values (an out-of-range integer field is not a Go value)
+		fmt.Fprintf(&b, "(assert (forall ((x %s)) (! (and (=> %s (= (%s (%s x)) x)) (not (sl.nil (%s x)))) :pattern ((%s x)))))\n", s, guard, um, m, m, m)
 		// decoding yields well-typed values (integer fields within their machine ranges)
 		if info := u.structs[s]; info != nil && info.Named != nil {
 			if wt := u.WellTyped(info.Named, "("+um+" b!w)", 0); wt != "true" {
@@ -458,6 +463,7 @@ func (u *Univ) Decls() string {
 		}
 		b.WriteString("))\n")
 	}
+	b.WriteString(constsMarker)
 	for _, c := range u.consts {
 		b.WriteString(c)
 		b.WriteString("\n")
@@ -467,6 +473,8 @@ func (u *Univ) Decls() string {
 	}
 	return b.String()
 }
+
+const constsMarker = ";;--constants--\n"
 
 func trunc(s string, n int) string {
 	if len(s) > n {
